@@ -165,6 +165,25 @@ def run(pid, tier):
     for (ln, ev) in parse_bad(r13.out):
         o.finding(kind='rej64', case=ev.get('case'), i=ev.get('i'), x=ev.get('x'), res=str(ev.get('res'))[:80], show=ev.get('show'), event=ev,
                   signature='rej64:%s:%s' % (ev.get('case'), ev.get('i')))
+    # Geometric(p) pointwise for p that are not small dyadics: trivial success prefix (exact), k, (1-p)^(2^k), (1-p)^m
+    gef = wd / 'geo.ndjson'
+    r14 = tlc('MCGeo', 'MCGeo.cfg', pid, 'geo_cases', workers=1, timeout=1200, heap='2g', env={'TIER': tier}, pipe_to=[str(RDV), 'btpe-drive', '--out', str(gef)])
+    require_ok(r14, 'MCGeo')
+    s14 = json.loads(r14.consumer_out.strip().splitlines()[-1])
+    if s14['events'] < 90:
+        raise ToolError('btpe-drive (geo): too few events: %s' % s14)
+    r15 = tlc('TraceBtpe', 'TraceBtpe.cfg', pid, 'geo_trace', trace_mode=True, env={'TRACE': gef, 'TIER': tier}, timeout=1200, heap='4g')
+    require_ok(r15, 'TraceBtpe (geo)')
+    if r15.rejected or r15.violated:
+        raise ToolError('geo trace not consumed: %s' % (r15.rejected or r15.violated))
+    o.add_tlc(r15, 'TraceBtpe: %d measured Geometric prefixes (trivial success words, D-loop continuation, remainder acceptance) at the anchors of GeoTable' % s14['events'])
+    gl = gef.read_text().splitlines()
+    o.traces += len(gl)
+    o.extra['geo_drive'] = s14
+    for (ln, ev) in parse_bad(r15.out):
+        o.finding(kind=ev.get('op'), case=ev.get('case'), i=ev.get('i'), res=str(ev.get('res'))[:80], show=ev.get('show'), event=ev,
+                  signature='%s:%s:%s' % (ev.get('op'), ev.get('case'), ev.get('i')))
+    o.samples.append({'kind': 'Geometric: measured remainder-acceptance prefix', 'event': json.loads(gl[-1])})
     o.samples.append({'kind': 'Knuth method: exact P(X = 0) of Poisson<f64>', 'event': {k: v for k, v in json.loads(klines[-5]).items() if k != 'probes'}})
     o.samples.append({'kind': 'exact law of a two-word rejection sampler (f32) over 2^48 tickets', 'event': {k: v for k, v in json.loads(rlines[0]).items() if k != 'probes'}})
     o.samples.append({'kind': 'ticket histogram (real sampler -> TraceDiscrete)', 'event': next(e for e in evs if e['op'] == 'hist' and e['kind'] == 'hin' and e['par'][0] >= 8)})
@@ -180,6 +199,7 @@ def run(pid, tier):
         'Poisson PD (lambda >= 12) is decided POINTWISE in its main path: at the anchors of spec/PdTable.tla (7 values of lambda, k within 3.2 sigma below l, f64 and f32) the uniform words that return k after a normal deviate with floor k are a suffix of relative length '
         '1 - min((lambda-k)^3/d, 1 - pmf(k)/hat(k)) with pmf the Poisson pmf itself (2^-24 / 2^-15); the immediate-acceptance step I is structural (k >= l returns without a uniform draw); the double-exponential branch (steps E / H) likewise at 5 exponential deviates per lambda: the accepted uniform words form an interval around the middle word with half-lengths (pmf(k2) - hat(k2)) exp(e) / (2c) (2^-19 / 2^-12); everything between anchors is NOT decided',
         'Zipf<f64> / Zeta<f64> are decided POINTWISE at the anchors of spec/Rej64Table.tla (13 parameter points, first uniform j/16 and, for Zeta, proposals up to 2^320): the proposal is the table\'s and the accepting second uniform words are a prefix of the documented relative length (2^-40); between the anchors NOT decided',
+        'Geometric(p) is decided POINTWISE at the anchors of spec/GeoTable.tla (17 values of p incl. non-dyadic, both sides of 2/3, k = 1 .. 40): trivial algorithm - the words returning 0 at once are exactly (floor(p 2^53) + 1) 2^11; Bringmann-Friedrich - k is the documented one, the words continuing the D loop are a prefix of relative length (1-p)^(2^k) and the uniform words accepting a remainder m (incl. m on both sides of 2^31, where the code changes from powi to powf) a prefix of relative length (1-p)^m, each to 2^-40 + e 2^-50 (e the exponent: what evaluating the documented formula in f64 allows); between the anchors NOT decided',
         'Zipf/Zeta: the documented pmf values are mpmath constants of spec/RejectionTable.tla; the law formula A_k / A assumes two words per iteration and an acceptance region that is a prefix of the acceptance lattice, '
         'both checked (other = 0; probes) - and is itself checked by ticket enumeration on a toy instance (RejToy.tla, with a deliberately wrong variant that must fail)',
         'half a ticket (>= 2^-31) is eleven orders of magnitude above the rounding error of the code\'s recurrences',
